@@ -225,7 +225,7 @@ def main(chk):
     n_conn = 2 if quick else 3
     total = len(formulas_upto(n_conn))
     chunk = 100 if quick else 250
-    triples = range(len(TRIPLES)) if not quick else range(4)
+    triples = range(len(TRIPLES)) if not quick else range(0, len(TRIPLES), 2)
     for ti in (range(len(TRIPLES))):
         exh = ti in triples
         if exh:
@@ -233,7 +233,7 @@ def main(chk):
                 jobs.append({"id": "exh-%d-%d" % (ti, lo), "kind": "exhaustive", "tree": "fixed", "triple": ti,
                              "atoms": TRIPLES[ti], "n_conn": n_conn, "lo": lo, "hi": lo + chunk,
                              "styles": ["(", "{"] if (ti == 0 or not quick) else ["("], "seed": 0})
-        for k in range(2 if quick else 12):
+        for k in range(8 if quick else 16):
             jobs.append({"id": "rnd-%d-%d" % (ti, k), "kind": "random", "tree": "fixed" if k % 2 == 0 else "random",
                          "triple": ti, "atoms": TRIPLES[ti], "n": 40 if quick else 150,
                          "seed": job_seed(chk.seed, "C03", "%d-%d" % (ti, k))})
